@@ -52,7 +52,7 @@ func main() {
 
 func cases(tier string) int {
 	if tier == "thorough" {
-		return 12000
+		return 40000
 	}
 	return 3000
 }
